@@ -16,6 +16,9 @@ var (
 	flagWorkers   = flag.Int("workers", 16, "parallel solver processes")
 	flagDump      = flag.String("dump", "", "directory to dump failing queries")
 	flagVerbose   = flag.Bool("v", false, "verbose")
+	flagSplit     = flag.Bool("split", false, "diagnosis: split conjunctive goals into one obligation per conjunct")
+	flagDumpAll   = flag.String("dumpname", "", "dump queries whose name contains this string to /tmp/vcdump")
+	flagOut       = flag.String("out", "", "directory for evidence/ and replays/ (default /verif)")
 )
 
 func setup() *Program {
@@ -76,8 +79,24 @@ func cmdFunc(args []string) {
 		}
 	}
 	dischargeAll(all, *flagTimeout, *flagWorkers)
+	if *flagVerbose {
+		for _, o := range all {
+			if ps := splitParts(o); ps != nil && o.TimeMS > 3000 {
+				// re-run parts for timing diagnosis
+				dischargeUnits(ps, *flagTimeout, *flagWorkers)
+				for _, p := range ps {
+					if p.TimeMS > 1000 {
+						fmt.Printf("  slow part %s %s %dms %s: %s\n", p.Name, p.Status, p.TimeMS, p.Solver, clipStr(p.Goal, 300))
+					}
+				}
+			}
+		}
+	}
 	bad := 0
 	for _, o := range all {
+		if *flagDumpAll != "" && strings.Contains(o.Name, *flagDumpAll) {
+			fmt.Println("dumped", dumpQuery(o, "/tmp/vcdump"))
+		}
 		if o.Status != "discharged" {
 			bad++
 			fmt.Printf("%-10s %s  [%s] line %d  %s  (%s %dms) %s\n", o.Status, o.Name, strings.Join(o.Tags, ","), o.Line, o.Text, o.Solver, o.TimeMS, o.Detail)
